@@ -12,7 +12,7 @@ import time
 from hypothesis import strategies as st
 
 from vf import lab, sched
-from vf.core import Prop, Outcome, HarnessError
+from vf.core import Prop, Outcome, HarnessError, fd
 
 import deep.push
 from deep.api.resource import Resource
@@ -64,14 +64,14 @@ class C09(Prop):
         op = st.one_of(st.tuples(st.just('push'), outcome), st.tuples(st.just('push'), outcome),
                        st.tuples(st.just('submit'), st.sampled_from(['ok', 'raise', 'raise_base'])),
                        st.tuples(st.just('run'), st.integers(0, 5)))
-        sim = st.fixed_dictionaries({
+        sim = fd({
             'mode': st.just('sim'),
             'ops': st.lists(op, min_size=1, max_size=12).map(lambda l: [list(o) for o in l]),
             'schedule': st.lists(st.one_of(st.none(), st.integers(0, 5)), max_size=14),
             'after': st.lists(st.sampled_from(['push', 'submit']), max_size=2),
             'second_flush': st.booleans(),
         })
-        real = st.fixed_dictionaries({
+        real = fd({
             'mode': st.just('real'),
             'outcomes': st.lists(outcome, min_size=1, max_size=5),
             'release_before_flush': st.integers(0, 5),
